@@ -46,7 +46,7 @@ Ops ==
                                                      <<x2[1] + 1, x2[Len(x2)]>>, <<x2[1], x2[Len(x2)] + 1>>}}
       [] Family = "pointwise" ->
             {[k |-> "trend", c |-> c, normalized |-> nm] : c \in {<<0, 0, 0>>, <<1, 2, 0>>, <<0, -1, 1>>, <<-3, 0, 2>>}, nm \in BOOLEAN}
-            \cup {[k |-> "normalize", lo |-> lo, hi |-> hi] : lo \in {-3, 0}, hi \in {1, 5}}
+            \cup {o \in {[k |-> "normalize", lo |-> lo, hi |-> hi] : lo \in {-3, 0}, hi \in {0, 1, 5}} : o.lo < o.hi}
             \cup {[k |-> "shiftscale", o |-> o, v2 |-> v] : o \in {"shift_x", "shift_y", "scale_x", "scale_y"}, v \in {-6, -2, 1, 4}}
 
 Next == /\ op.k = "none" /\ op' \in Ops /\ UNCHANGED <<x2, y>>
